@@ -102,7 +102,8 @@ class Module(object):
     except SyntaxError as e:
       raise AnalysisError('cannot parse %s: %s' % (relpath, e))
     # variables are identified by role, not by name (sa/roles.py)
-    from sa import roles
+    from sa import inline, roles
+    inline.undo_extract_method(relpath, self.tree, repo.role_notes)
     roles.align(relpath, self.tree, repo.role_notes)
     self.funcs = {}
     self.classes = {}
@@ -171,6 +172,10 @@ class Module(object):
       # a nested function moved to module level (or back), or a method moved
       # between a class and the module: the same function when exactly one
       # function of the module has that name
+      mv = getattr(self.tree, '_moved', {}).get(qualname)
+      if mv in self.funcs:
+        self.funcs[qualname] = self.funcs[mv]
+        return self.funcs[mv]
       last = qualname.split('.')[-1]
       same = [q for q in self.funcs if q.split('.')[-1] == last]
       if len(same) == 1 and '.' in qualname + same[0]:
